@@ -159,9 +159,9 @@ class C20World(statuslib.World):
                 d = inner_creator()
                 inner = d['actions'][0]
 
-                def action(inner=inner, t=t):
+                def action(v=None, inner=inner, t=t):      # `v`: the getargs value statuslib's action takes
                     world.events.append(('action', t))
-                    return inner()
+                    return inner(v)
 
                 def plain_clean(t=t):
                     world.events.append(('clean', t))
@@ -204,6 +204,11 @@ class C20World(statuslib.World):
                     world.events.append(('teardown', t))
 
                 d['actions'] = [action]
+                if world.group():                          # names of other tasks: sub-tasks are `g:t<i>`
+                    if d.get('task_dep'):
+                        d['task_dep'] = [world.rname(int(x[1:])) for x in d['task_dep']]
+                    if d.get('getargs'):
+                        d['getargs'] = {k: (world.rname(int(v[0][1:])), v[1]) for k, v in d['getargs'].items()}
                 d['teardown'] = [teardown]
                 d['doc'] = 'doc of t%d' % t
                 kind = kinds.get(str(t), 'none')
@@ -1351,11 +1356,20 @@ def process_batch(batch):
             o.divs = keep
         if v.divergence:
             # the correspondence of the *history* (run / forget / ignore / reset-dep ... against Model/Status.lean) is
-            # owned and reported by C03/C04/C13, which run it on far more histories; here the probes after the
-            # diverging op are skipped (the model state is no longer the implementation's) and the event is counted
+            # owned and reported by C03/C04/C13, which run it on far more histories -- provided the same history
+            # diverges under plain statuslib too.  If it does not, this module's world (event log, clean attributes,
+            # sub-task naming) changed the behaviour of the history: that is a defect of this check and is reported.
             i, what, impl, model = v.divergence
-            st.count('history-correspondence(M2, owned by C03/C04/C13):diverged')
-            st.count('history-correspondence(M2):' + re.sub(r'op \d+', 'op N', str(what))[:80])
+            plain = statuslib.evaluate([{k: x for k, x in statuslib.strip(case).items() if k != 'hashseed'}])[0]
+            if plain.divergence:
+                st.count('history-correspondence(M2, owned by C03/C04/C13):diverged')
+                st.count('history-correspondence(M2):' + re.sub(r'op \d+', 'op N', str(what))[:80])
+            else:
+                st.divergence({'case': case_key(case), 'rendered': render(case), 'at_op': i, 'impl': impl, 'model': model,
+                               'origin': origin,
+                               'stderr': (v.obs[i].get('stderr') if v.obs and i < len(v.obs) else None)},
+                              'the C20 world (event log / clean attributes / sub-task naming) changes the history: '
+                              + str(what))
         if o.fails:
             known_f = [f for f in o.fails if any(pred(f) for pred in SIGNATURES.values())]
             fresh_f = [f for f in o.fails if f not in known_f]
